@@ -250,3 +250,31 @@ func H18_inproc_api() {
 	vrtAssert("C18.stream_wellformed", ok)
 	vrtReach("C18.inproc_api")
 }
+
+// P10: the will of a dropped connection is still being fanned out (an
+// in-process subscriber takes its time) when the same client id connects again
+// and its session is updated with the new CONNECT: the subscribers behind the
+// slow one receive the first connection's will, byte for byte.
+func H18_will_during_takeover() {
+	b := vrtBroker("mockSuccess")
+	g := vrtNewGate()
+	b.svr.Subscribe("t", 1, &g.fn)
+	w2, _ := b.connect(vrtConnectPkt([]byte("w2"), true))
+	vrtExchange(w2, &specPkt{Typ: specSUBSCRIBE, ID: 1, Topics: [][]byte{[]byte("t")}, QoS: []byte{0}})
+	w2.peerTake()
+	first := []byte("the will of the first connection")
+	s, _ := b.connect(vrtConnectWithWill([]byte("s"), false, vrtWill{flag: true, qos: 0, topic: []byte("t"), payload: first}))
+	s.peerClose()
+	vrtQuiesce() // the teardown of s is now inside the fan-out of its will, held up by the slow subscriber
+	c, ack := b.connect(vrtConnectWithWill([]byte("s"), false, vrtWill{flag: true, qos: 0, topic: []byte("t"), payload: []byte("second")}))
+	vrtAssert("C18.harness_resumed", vrtIsConnack(ack, true, 0))
+	g.release()
+	vrtQuiesce()
+	got, ok := vrtParse(w2.peerTake())
+	vrtAssert("C18.stream_wellformed", ok && len(got) == 1)
+	if ok && len(got) == 1 {
+		vrtAssert("C18.will_bytes_stable_during_takeover", vrtAnd(vrtBytesEq(got[0].Topic, []byte("t")), vrtBytesEq(got[0].Payload, first)))
+	}
+	_ = c
+	vrtReach("C18.will_during_takeover")
+}
